@@ -883,6 +883,10 @@ class Ackermannizer(IdentityDagWalker):
         #generated, or to the original term if it is not replaced.
         self._terms_dict: Dict[FNode, FNode] = {}
 
+        # maps (f, arguments in which the applications have been
+        # replaced) to the constant of the application
+        self._args_to_const: Dict[Tuple[FNode, Tuple[FNode, ...]], FNode] = {}
+
     def do_ackermannization(self, formula: FNode) -> FNode:
         substitued_formula = self._fill_maps_and_sub(formula)
         implications = self._get_equality_implications()
@@ -915,19 +919,15 @@ class Ackermannizer(IdentityDagWalker):
         return result
 
     def _generate_implication(self, option1: Sequence[FNode], option2: Sequence[FNode], f: FNode) -> FNode:
+        # Note: the options are the arguments in which the function
+        # applications (at any depth) are already replaced
         left_conjuncts = set()
         for term1, term2 in zip(option1, option2):
-            if term1.is_function_application():
-                term1 = self._terms_dict[term1]
-            if term2.is_function_application():
-                term2 = self._terms_dict[term2]
             conjunct = self.mgr.EqualsOrIff(term1, term2)
             left_conjuncts.add(conjunct)
         left = self.mgr.And(left_conjuncts)
-        app1 = self.mgr.Function(f, option1)
-        app2 = self.mgr.Function(f, option2)
-        app1_const = self._terms_dict[app1]
-        app2_const = self._terms_dict[app2]
+        app1_const = self._args_to_const[(f, tuple(option1))]
+        app2_const = self._args_to_const[(f, tuple(option2))]
         right = self.mgr.EqualsOrIff(app1_const, app2_const)
         implication = self.mgr.Implies(left, right)
         return implication
@@ -939,9 +939,9 @@ class Ackermannizer(IdentityDagWalker):
         try:
             ack_symbol = self._terms_dict[formula]
         except KeyError:
-            self._add_args_to_fun(formula)
             self._add_application(formula)
             ack_symbol = self._terms_dict[formula]
+            self._add_args_to_fun(formula, args)
         return ack_symbol
 
     def _add_application(self, formula: FNode):
@@ -952,10 +952,13 @@ class Ackermannizer(IdentityDagWalker):
                                        template="ack%d")
             self._terms_dict[formula] = sym
 
-    def _add_args_to_fun(self, formula: FNode):
+    def _add_args_to_fun(self, formula: FNode, new_args: Sequence[FNode]):
+        # new_args are the arguments of formula after the replacement
+        # of the function applications
         function_name = formula.function_name()
-        args = formula.args()
+        args = tuple(new_args)
         self._funs_to_args.setdefault(function_name, set()).add(args)
+        self._args_to_const[(function_name, args)] = self._terms_dict[formula]
 
 
 
